@@ -5,7 +5,7 @@
    added and known.  `calm`: no bulk-level exception at the tmgr scheduler
    (that case is C05_one_truthful_final_refuted, a recorded finding). *)
 From Coq Require Import ZArith List Bool Permutation.
-From RP Require Import Gen.StatesTables Pipeline.Model Pipeline.Oracle Pipeline.Proofs.
+From RP Require Import Gen.StatesTables Pipeline.Model Pipeline.Stage Pipeline.Oracle Pipeline.Proofs Pipeline.StageProofs.
 From RP Require Exec.Model Exec.Oracle Exec.CancelProofs Exec.ReleaseProofs.
 Import ListNotations.
 Open Scope Z_scope.
@@ -116,6 +116,67 @@ Theorem C05_aexec_releases_once :
     releases_of (proj (t_uid t) (snd (work_cb CAExec P cl B bf))) = 1%nat.
 Proof. exact aexec_releases_once. Qed.
 Print Assumptions C05_aexec_releases_once.
+
+(* ---- staging: when does a directive succeed (Pipeline.Stage: the local
+   backend over an abstract file tree), and what DONE says about it ---- *)
+(* a directive that succeeds found its source and leaves its target *)
+Theorem C05_directive_sound :
+  forall tr d tr', sd_src d <> sd_tgt d -> apply_sd tr d = Some tr' ->
+    present (get (sd_src d) tr) = true /\
+    (is_tar d = false -> present (get (sd_tgt d) tr') = true).
+Proof. exact apply_sd_sound. Qed.
+Print Assumptions C05_directive_sound.
+
+(* every directive of a list that succeeds, at the moment it is enacted *)
+Theorem C05_directive_list_sound :
+  forall l tr tr', distinct_ends l -> run_sds tr l = Some tr' ->
+    forall a d b, l = a ++ d :: b ->
+      exists ta tb, run_sds tr a = Some ta /\ apply_sd ta d = Some tb /\
+        present (get (sd_src d) ta) = true /\ (is_tar d = false -> present (get (sd_tgt d) tb) = true).
+Proof. exact run_sds_sound. Qed.
+Print Assumptions C05_directive_list_sound.
+
+(* a stager that hands the task on ran all the directives it enacts, and
+   (tmgr stage-in) found every source it packs *)
+Theorem C05_stage_ok_enacted :
+  forall c tr l, stage_ok c tr l = true ->
+    (exists tr', run_sds tr (enacted c l) = Some tr') /\
+    forall d, In d (packed c l) -> present (get (sd_src d) tr) = true.
+Proof. exact stage_ok_enacted. Qed.
+Print Assumptions C05_stage_ok_enacted.
+
+(* a truthful DONE means: the staging of all four stagers succeeded *)
+Theorem C05_done_implies_staged :
+  forall u b soe fa fo fs fx tin ain aout tout creq bulkf,
+    truthful (staged_task u b soe fa fo fs fx tin ain aout tout) creq bulkf T_DONE = true ->
+    stage_ok CTIn (sp_tr tin) (sp_l tin) = true /\ stage_ok CAIn (sp_tr ain) (sp_l ain) = true /\
+    stage_ok CAOut (sp_tr aout) (sp_l aout) = true /\ stage_ok CTOut (sp_tr tout) (sp_l tout) = true.
+Proof. exact done_implies_staged. Qed.
+Print Assumptions C05_done_implies_staged.
+
+(* for every workload, fault placement and delivery schedule: a task whose
+   final state is DONE had all its staging succeed *)
+Theorem C05_done_means_staging_succeeded :
+  forall thr W evs u b soe fa fo fs fx tin ain aout tout,
+    let t0 := staged_task u b soe fa fo fs fx tin ain aout tout in
+    wf_workload W -> forallb calm evs = true -> In t0 W ->
+    let g := run (mkP true thr) (init W) evs in
+    queued u g = [] ->
+    (forall x, In x (fin_sts u (tr g)) -> x = T_DONE) ->
+    stage_ok CTIn (sp_tr tin) (sp_l tin) = true /\ stage_ok CAIn (sp_tr ain) (sp_l ain) = true /\
+    stage_ok CAOut (sp_tr aout) (sp_l aout) = true /\ stage_ok CTOut (sp_tr tout) (sp_l tout) = true.
+Proof. exact done_means_staging_succeeded. Qed.
+Print Assumptions C05_done_means_staging_succeeded.
+
+(* non-vacuity of the staging model: link of a missing source fails, link of
+   a file onto a free name succeeds, a second move of the same source fails *)
+Example C05_staging_nonvacuous :
+  stage_ok CAOut [] [mkSD ALink 1 51] = false /\
+  stage_ok CAOut [(1, KFile)] [mkSD ALink 1 51] = true /\
+  stage_ok CAIn [(1, KFile); (12, KDir [])] [mkSD AMove 1 12; mkSD AMove 1 12] = false /\
+  run_stage CAIn [(1, KFile); (12, KDir [])] [mkSD ACopy 1 12; mkSD AMove 1 51]
+  = Some [(1, KAbsent); (51, KFile); (12, KDir [1]); (1, KFile); (12, KDir [])].
+Proof. vm_compute. repeat split; reflexivity. Qed.
 
 (* the client, any delivery order *)
 Theorem C05_client_any_order :
